@@ -79,6 +79,10 @@ def make_axis(rng, name, dim, *, nk=None, down=None, attr='auto', deep_first=Non
         axis['attrs']['axis'] = 'Z'
     elif ident == 'standard_name':
         axis['attrs']['standard_name'] = 'depth'
+    elif ident == 'coordinate_type':
+        axis['attrs']['coordinate_type'] = 'Z'         # the EMS / SHOC way
+    elif ident == 'cartesian_axis':
+        axis['attrs']['cartesian_axis'] = 'Z'          # the MOM / ROMS way
     if chance(rng, 0.5):
         axis['attrs']['units'] = 'm'
     if chance(rng, 0.3):
@@ -123,9 +127,9 @@ def choose_axes(rng, conv, naxes, *, recognisable=True, attr_missing=0.12, same_
         if not by_name:
             # a generic coordinate is a depth coordinate through `positive`, axis Z or standard_name depth
             if missing:
-                ident = pick(rng, ['axis', 'standard_name'])
+                ident = pick(rng, ['axis', 'standard_name', 'coordinate_type', 'cartesian_axis'])
             elif chance(rng, 0.25):
-                ident = pick(rng, ['axis', 'standard_name'])
+                ident = pick(rng, ['axis', 'standard_name', 'coordinate_type', 'cartesian_axis'])
         elif name in dict(FOREIGN) and chance(rng, 0.3):
             ident = 'axis'
         if missing:
@@ -141,7 +145,7 @@ def choose_axes(rng, conv, naxes, *, recognisable=True, attr_missing=0.12, same_
         axes.append(make_axis(rng, name, dim, ident=ident, **kw))
     for a in axes:
         a['recognised'] = (a['name'], a['dim']) in BY_NAME.get(conv, []) if by_name else \
-            (a['attr'] is not None or bool({'axis', 'standard_name'} & set(a['attrs'])))
+            (a['attr'] is not None or bool({'axis', 'standard_name', 'coordinate_type', 'cartesian_axis'} & set(a['attrs'])))
         if a['name'] != a['dim'] and a['style'] == 'coord' and chance(rng, 0.25):
             a['style'] = 'var'
     return axes
